@@ -2,6 +2,7 @@ package lmd
 
 import (
 	"fmt"
+	"slices"
 	"sort"
 	"strings"
 
@@ -709,7 +710,8 @@ func (d *DataStore) appendIndexFromPrimaryKey(uniqRows map[string]bool, fil *Fil
 // deduplicateStringlist store duplicate string lists only once.
 func (d *DataStore) deduplicateStringlist(list []string) []string {
 	sum := xxhash.ChecksumString32(strings.Join(list, ListSepChar1))
-	if l, ok := d.dupStringList[sum]; ok {
+	// the checksum is only a hint, different lists may share it (ex.: [] and [""])
+	if l, ok := d.dupStringList[sum]; ok && slices.Equal(l, list) {
 		return l
 	}
 
